@@ -29,8 +29,9 @@ func (rt *Transfer) createDevice(f *File, st fs.FileInfo) error {
 		return unix.Mknodat(int(parentDir.Fd()), base, uint32(perm)|syscall.S_IFCHR, int(f.Rdev))
 
 	case rsync.S_IFBLK:
-		if st != nil && (st.Mode().Type()&os.ModeDevice != 0 ||
-			st.Mode().Type()&os.ModeCharDevice != 0) {
+		// os.ModeDevice is set for character devices, too
+		if st != nil && st.Mode().Type()&os.ModeDevice != 0 &&
+			st.Mode().Type()&os.ModeCharDevice == 0 {
 			return nil // file of correct type exists
 		}
 
